@@ -688,6 +688,35 @@ func (c *VCtx) translateCall(sc *Scope, x *ECall) Val {
 			return c.typed(r, et)
 		}
 		return r
+	case "zero":
+		return T(SAny, "zero_Any")
+	case "objinv":
+		// objinv(x): the conjunction of the declared monitor invariants of x's type, instantiated at x
+		a := arg(0)
+		if a.GT == nil {
+			unsup("objinv of untyped value")
+		}
+		sp := c.objectSpec(a.GT)
+		if sp == nil {
+			unsup("objinv: no object spec for %s", a.GT)
+		}
+		var parts []*Term
+		for _, inv := range sp.Invs {
+			n := &Scope{c: c, vars: map[string]Val{"this": a}, st: sc.st, old: sc.old, pkg: sp.Pkg, inOld: sc.inOld}
+			if c.me != nil {
+				n.vars["me"] = c.me
+			}
+			parts = append(parts, c.translateBool(n, inv.E))
+		}
+		return And(parts...)
+	case "csold":
+		// csold(e): e in the state right after this invocation's most recent lock acquisition
+		if c.lastCSEntry == nil {
+			unsup("csold used but no critical section has been entered")
+		}
+		n := *sc
+		n.st, n.inOld = c.lastCSEntry, false
+		return c.translate(&n, x.Args[0])
 	case "card":
 		return T(SInt, app("card", arg(0)))
 	case "fin":
